@@ -453,8 +453,10 @@ impl DocumentInline {
             DocumentInline::LineBreak(_) => GraphInline::LineBreak,
             DocumentInline::Link(link) => GraphInline::Link(
                 if model::is_ref_url(&link.target.url) {
-                    // the configured extension is added back when the link is written
-                    model::strip_md(&link.target.url).to_string()
+                    // a link to a note is kept by the key of the note it names from the linking
+                    // note's directory, like a block reference; the projector writes it relative
+                    // to the note again, the configured extension is added back by the writer
+                    Key::from_rel_link_url(&link.target.url, relative_to).to_string()
                 } else {
                     link.target.url.clone()
                 },
